@@ -8,9 +8,11 @@ def extra(work, v, thorough):
 
 PLAN = {
     "api": True,
+    "lin": True,
     "mc": [("StoreMC_acct.cfg", False), ("StoreMC_exp_small.cfg", True)],
     "sims": [("StoreSim_acct.cfg", 200, 1500, 61)],
-    "drivers": [("TestVerif_StoreFree", 10, 60, "store_free.ndjson", None), ("TestVerif_StoreTime", 30, 300, "store_time.ndjson", None)],
+    "drivers": [("TestVerif_StoreFree", 10, 60, "store_free.ndjson", None), ("TestVerif_StoreTime", 30, 300, "store_time.ndjson", None),
+                ("TestVerif_StoreLoad", 10, 100, "store_load.ndjson", None)],
     "extra": extra,
     "assumptions": [
         "the atomicity of a shard section is the contract of internal/rbmutex.go: the real RBMutex is stepped through its atomic operations and compared with RBMutex.tla (model-checked under C19); a writer inside together with a reader or another writer is reported here too",
